@@ -16,6 +16,7 @@ expected, got, context}.  Replaying needs only (opts, res["source"]).
 
 Conservative choices (places where the property statements leave room) are marked `AMBIGUITY`.
 """
+import difflib
 import re
 from fractions import Fraction
 from urllib.parse import unquote
@@ -334,7 +335,7 @@ class Rewriter:
         self.imports = []        # info about every @import rule met (for C18)
         self.host_rules = []     # info about every :host rule met (for C17)
         self.uranges = []        # [[E..]] unicode-range runs
-        self.n_rules_before = 0
+        self.unspecified = False  # an @import the statement says nothing about was met
 
     # -- generic copy ------------------------------------------------------------------------
     def copy(self, t, ctx, role=None):
@@ -392,12 +393,15 @@ class Rewriter:
         if term.kind == "semi":
             items.append(self.copy(term, pctx))
             return items
+        # at-keywords are ASCII case-insensitive; a non-lowercase spelling is marked in the chain so
+        # that failures it causes get their own class
+        cname = _chain_name(at.val)
         if lname in RULE_BEARING:
-            kids = self.rules(term.children, chain + (lname,), wrap + [head])
+            kids = self.rules(term.children, chain + (cname,), wrap + [head])
         elif lname in KEYFRAMES:
-            kids = self.keyframes(term.children, chain + (lname,))
+            kids = self.keyframes(term.children, chain + (cname,))
         else:
-            kids = self.values(term.children, Ctx("value", chain + (lname,), rule_at=at.pos))
+            kids = self.values(term.children, Ctx("value", chain + (cname,), rule_at=at.pos))
         b = E("curly", None, kids, term, None, pctx)
         b.close_src = term
         items.append(b)
@@ -463,7 +467,7 @@ class Rewriter:
         hi = term.pos if term is not None else (sig[-1].pos if sig else at.pos)
         span = (at.pos, hi)
         ictx = Ctx("atprelude", chain, 0, "import", special="import", rule_at=at.pos)
-        info = dict(at=at, rewritten=True, form=None, path=None, ok=False, **where)
+        info = dict(at=at, rewritten=True, form=None, path=None, ok=False, span=span, **where)
         self.imports.append(info)
         if not sig:
             return []
@@ -479,7 +483,8 @@ class Rewriter:
                 path, info["form"] = inner[0].val, "url-quoted"
         if path is None:
             info["form"] = "malformed"
-            return None  # not a well-formed import: nothing is demanded
+            self.unspecified = True   # not a well-formed import: nothing is demanded
+            return []
         info["path"] = path
         rest = sig[1:]
         wrappers = []   # (at-name, prelude E list, trigger token)
@@ -669,6 +674,11 @@ class Rewriter:
         return out
 
 
+def _chain_name(name):
+    l = name.lower()
+    return l if l == name else l + "(uppercase)"
+
+
 def _after(t):
     """position right after a one-character token"""
     return (t.line, t.col + 1)
@@ -690,26 +700,8 @@ def expected_rewrite(tokens_in, opts):
     if not isinstance(opts, Opts):
         opts = Opts(opts)
     rw = Rewriter(opts)
-    out = []
-    # top level = rule list; an @import that is not well-formed yields `None` (nothing demanded)
     normal = rw.rules(tokens_in, (), [], top=True)
-    rw.unspecified = any(x is None for x in normal)
-    for x in normal:
-        if x is not None:
-            out.append(x)
-    return out, rw.low, rw
-
-
-# Rewriter.rules concatenates lists; make a malformed import (None) survive the concatenation
-_orig_import_rule = Rewriter.import_rule
-
-
-def _import_rule(self, *a, **k):
-    r = _orig_import_rule(self, *a, **k)
-    return [None] if r is None else r
-
-
-Rewriter.import_rule = _import_rule
+    return normal, rw.low, rw
 
 
 # ----------------------------------------------------------------------------------------------
@@ -717,8 +709,21 @@ Rewriter.import_rule = _import_rule
 # ----------------------------------------------------------------------------------------------
 
 EXACT, SOFT, NONE = 2, 1, 0
+
+
+def _import_comment_path(sign, text):
+    """the path a placeholder comment `<sign> <percent-encoded path>` denotes (None if it is not one)"""
+    if not text.startswith(sign + " "):
+        return None
+    try:
+        return unquote(text[len(sign) + 1:], errors="strict")
+    except Exception:
+        return None
+
 TWO_ULP = Fraction(2, 1 << 23)
-SIX_DIGITS = Fraction(501, 10 ** 8)     # 5.01e-6: half a unit of the 6th significant digit (+slack)
+# half a unit of the 6th significant digit (5e-6) plus the roundings of printing `unit_value*100`
+# and of re-reading the printed text as f32 (4 ulp)
+SIX_DIGITS = Fraction(5, 10 ** 6) + Fraction(4, 1 << 23)
 
 
 class Analysis:
@@ -774,7 +779,7 @@ class Analysis:
             return NONE
         if k == "comment":
             if e.role == "import-comment":
-                return EXACT if o.val.startswith(e.val[0]) else NONE
+                return EXACT if _import_comment_path(e.val[0], o.val) == e.val[1] else NONE
             return EXACT if e.val == o.val else NONE
         if k in NUMERIC:
             if k == "dim":
@@ -793,18 +798,81 @@ class Analysis:
             return EXACT if e.val == o.val else NONE
         return EXACT
 
-    def match_strict(self, e, o):
-        """used to re-synchronise after a mismatch: blocks must also agree on their shape"""
-        m = self.match(e, o)
-        if m == NONE or e.kind not in BLOCKS:
-            return m == EXACT
-        oc = [c for c in o.children if c.kind != "ws"]
-        ec = e.children or []
-        return len(oc) == len(ec) and all(a.kind == b.kind for a, b in zip(ec, oc))
+    # -- alignment keys ------------------------------------------------------------------------------
+    def _strip(self, name):
+        # canonical form for alignment only: the class prefix (possibly repeated) is taken off
+        p = self.o.prefix
+        if p is not None:
+            while name.startswith(p + "--") and len(name) > len(p) + 2:
+                name = name[len(p) + 2:]
+        return name
+
+    def ekey(self, e, shallow=False, deep=False):
+        k = e.kind
+        if deep and k in BLOCKS:
+            return (k, e.val, tuple(self.ekey(c, deep=True) for c in (e.children or [])))
+        if k == "ident":
+            return (k, self._strip(e.val))
+        if k == "comment":
+            return (k,) + tuple(e.val) if e.role == "import-comment" else (k, e.val)
+        if k in NUMERIC:
+            u = e.src.unit if k == "dim" else None
+            return (k, "rpx|vw" if u in ("rpx", "vw") else u)
+        if k in BLOCKS:
+            if shallow:
+                return (k, e.val)
+            return (k, e.val, self.ekey(e.children[0], True) if e.children else None)
+        return (k, e.val)
+
+    def okey(self, o, shallow=False, deep=False):
+        k = o.kind
+        if deep and k in BLOCKS:
+            return (k, o.val, tuple(self.okey(c, deep=True) for c in o.children if c.kind != "ws"))
+        if k == "ident":
+            return (k, self._strip(o.val))
+        if k == "comment":
+            sign = self.o.import_sign
+            if sign is not None:
+                pth = _import_comment_path(sign, o.val)
+                if pth is not None:
+                    return (k, sign, pth)
+            return (k, o.val)
+        if k in NUMERIC:
+            u = o.unit if k == "dim" else None
+            return (k, "rpx|vw" if u in ("rpx", "vw") else u)
+        if k in BLOCKS:
+            if shallow:
+                return (k, o.val)
+            first = next((c for c in o.children if c.kind != "ws"), None)
+            return (k, o.val, self.okey(first, True) if first is not None else None)
+        return (k, o.val)
+
+    def align(self, exp, osig):
+        """diff opcodes between expected and actual tokens of one level: subtrees that agree
+        completely are matched first, the remaining stretches are diffed on shallow keys"""
+        ek = [self.ekey(e, deep=True) for e in exp]
+        ok_ = [self.okey(o, deep=True) for o in osig]
+        if ek == ok_:
+            return [("equal", 0, len(ek), 0, len(ok_))]
+        res = []
+        for tag, i1, i2, j1, j2 in difflib.SequenceMatcher(None, ek, ok_, autojunk=False).get_opcodes():
+            if tag != "replace":
+                res.append((tag, i1, i2, j1, j2))
+                continue
+            ek2 = [self.ekey(e) for e in exp[i1:i2]]
+            ok2 = [self.okey(o) for o in osig[j1:j2]]
+            for tag2, a1, a2, b1, b2 in difflib.SequenceMatcher(None, ek2, ok2, autojunk=False).get_opcodes():
+                res.append((tag2, i1 + a1, i1 + a2, j1 + b1, j1 + b2))
+        return res
 
     # -- level comparison --------------------------------------------------------------------------
     def cmp_level(self, exp, out, which, enclosing=None):
-        """exp: [E]; out: [Tok] (children of one block or top level).  Returns True if aligned."""
+        """exp: [E]; out: [Tok] (children of one block or top level).
+        Both sides are cut into chunks (a chunk ends with `;` or a `{}` block: a rule or a
+        declaration); chunks are aligned first (equal ones, then the most similar ones in order),
+        and the tokens of two aligned chunks by a longest-common-subsequence diff over token keys
+        (kind + decoded value; class prefix and numeric value left out).  A dropped or added rule
+        thus does not derail the comparison of the others."""
         osig = []
         ws_before = []
         had_ws = False
@@ -815,48 +883,140 @@ class Analysis:
                 osig.append(t)
                 ws_before.append(had_ws)
                 had_ws = False
-        i = j = 0
-        ne, no = len(exp), len(osig)
-        ok = True
-        consecutive = False
-        K = 48
-        while i < ne and j < no:
-            e, o = exp[i], osig[j]
-            m = self.match(e, o)
-            if m != NONE:
-                self.pair(e, o, which, ws_before[j] if consecutive else None, m)
-                i += 1
-                j += 1
-                consecutive = True
-                continue
-            ok = False
-            consecutive = False
-            # re-synchronise: tokens dropped from / added to the output?
-            drop = next((k for k in range(1, min(K, ne - i)) if self.match_strict(exp[i + k], o)), None)
-            extra = next((k for k in range(1, min(K, no - j)) if self.match_strict(e, osig[j + k])), None)
-            if drop is not None and (extra is None or drop <= extra):
-                self.report_dropped(exp[i:i + drop], o, which)
-                i += drop
-            elif extra is not None:
-                self.report_extra(osig[j:j + extra], e, which)
-                j += extra
-            else:
-                self.report_mismatch(e, o, which)
-                # substitution: go on if the followers line up, else give up on this level
-                if i + 1 < ne and j + 1 < no and self.match(exp[i + 1], osig[j + 1]) != NONE:
-                    i += 1
-                    j += 1
+        sign = self.o.import_sign
+        ech = _chunks(exp, lambda e: e.role == "import-comment")
+        och = _chunks(osig, lambda t: sign is not None and t.kind == "comment" and t.val.startswith(sign + " "))
+        if len(ech) <= 1 and len(och) <= 1:
+            ok = self.cmp_tokens(exp, osig, ws_before, which, enclosing, 0, len(exp), 0, len(osig))
+        else:
+            ok = True
+            al = self.align_chunks(exp, osig, ech, och)
+            consumed = set()
+            for n, ((i1, i2), (j1, j2)) in enumerate(al):
+                if n in consumed:
+                    continue
+                if i1 == i2:
+                    ok = False
+                    self.report_extra(osig[j1:j2], exp[i2] if i2 < len(exp) else None, which, enclosing)
+                elif j1 == j2:
+                    ok = False
+                    o = None
+                    if exp[i1].ctx is not None and exp[i1].ctx.special == "import":
+                        # what stands there instead is the (wrong) rewrite of the same @import
+                        for nb in (n + 1, n - 1):
+                            if 0 <= nb < len(al) and nb not in consumed and al[nb][0][0] == al[nb][0][1] and (nb > n or True):
+                                if nb < n:
+                                    continue   # already reported as added
+                                o = osig[al[nb][1][0]]
+                                consumed.add(nb)
+                                break
+                    self.report_dropped_runs(exp[i1:i2], o, which)
                 else:
-                    self.aligned_fully = False
-                    return False
-        if i < ne:
-            ok = False
-            self.report_dropped(exp[i:], None, which)
-        elif j < no:
-            ok = False
-            self.report_extra(osig[j:], None, which, enclosing)
+                    ok = self.cmp_tokens(exp, osig, ws_before, which, enclosing, i1, i2, j1, j2) and ok
         if not ok:
             self.aligned_fully = False
+        return ok
+
+    def align_chunks(self, exp, osig, ech, och):
+        """-> [((i1,i2),(j1,j2))] in order; an empty range on one side = chunk without partner"""
+        ekd = [tuple(self.ekey(e, deep=True) for e in exp[a:b]) for a, b in ech]
+        okd = [tuple(self.okey(o, deep=True) for o in osig[a:b]) for a, b in och]
+        res = []
+        for tag, a1, a2, b1, b2 in difflib.SequenceMatcher(None, ekd, okd, autojunk=False).get_opcodes():
+            if tag == "equal":
+                for k in range(a2 - a1):
+                    res.append((ech[a1 + k], och[b1 + k]))
+                continue
+            # stretch without exact partners: pair the most similar chunks, keeping the order
+            es, os_ = ech[a1:a2], och[b1:b2]
+            eks = [[self.ekey(e) for e in exp[a:b]] for a, b in es]
+            oks = [[self.okey(o) for o in osig[a:b]] for a, b in os_]
+            n, m = len(es), len(os_)
+            sim = [[0.0] * m for _ in range(n)]
+            for x in range(n):
+                for y in range(m):
+                    r = difflib.SequenceMatcher(None, eks[x], oks[y], autojunk=False).ratio()
+                    # a rule is recognised by its head (at-keyword / first selector tokens) too
+                    if eks[x][:1] != oks[y][:1]:
+                        r *= 0.6
+                    sim[x][y] = r if r >= 0.45 else 0.0
+            best = [[0.0] * (m + 1) for _ in range(n + 1)]
+            for x in range(n - 1, -1, -1):
+                for y in range(m - 1, -1, -1):
+                    v = max(best[x + 1][y], best[x][y + 1])
+                    if sim[x][y] > 0 and sim[x][y] + best[x + 1][y + 1] > v:
+                        v = sim[x][y] + best[x + 1][y + 1]
+                    best[x][y] = v
+            x = y = 0
+            while x < n or y < m:
+                if x < n and y < m and sim[x][y] > 0 and best[x][y] == sim[x][y] + best[x + 1][y + 1]:
+                    res.append((es[x], os_[y]))
+                    x += 1
+                    y += 1
+                elif x < n and (y >= m or best[x][y] == best[x + 1][y]):
+                    pos = os_[y][0] if y < m else (os_[-1][1] if os_ else (och[b1 - 1][1] if b1 > 0 else 0))
+                    res.append((es[x], (pos, pos)))
+                    x += 1
+                else:
+                    pos = es[x][0] if x < n else (es[-1][1] if es else (ech[a1 - 1][1] if a1 > 0 else 0))
+                    res.append(((pos, pos), os_[y]))
+                    y += 1
+        return res
+
+    def report_dropped_runs(self, es, o, which):
+        """one report per input rule concerned"""
+        run = [es[0]]
+        runs = [run]
+        for e in es[1:]:
+            if (e.ctx.rule_at if e.ctx else None) == (run[-1].ctx.rule_at if run[-1].ctx else None):
+                run.append(e)
+            else:
+                run = [e]
+                runs.append(run)
+        for run in runs:
+            self.report_dropped(run, o, which)
+        return runs
+
+    def cmp_tokens(self, exp, osig, ws_before, which, enclosing, lo_i, hi_i, lo_j, hi_j):
+        """token-level comparison of exp[lo_i:hi_i] with osig[lo_j:hi_j]"""
+        sub_e, sub_o = exp[lo_i:hi_i], osig[lo_j:hi_j]
+        ops = [(t, lo_i + a, lo_i + b, lo_j + c, lo_j + d) for t, a, b, c, d in self.align(sub_e, sub_o)]
+        ok = True
+        last = (None, None)     # indexes of the last pair made
+        for tag, i1, i2, j1, j2 in ops:
+            if tag == "equal":
+                for i, j in zip(range(i1, i2), range(j1, j2)):
+                    e, o = exp[i], osig[j]
+                    m = self.match(e, o)
+                    if m == NONE:
+                        ok = False
+                        self.report_mismatch(e, o, which)
+                        continue
+                    consecutive = last == (i - 1, j - 1)
+                    self.pair(e, o, which, ws_before[j] if consecutive else None, m)
+                    last = (i, j)
+                continue
+            ok = False
+            i, j = i1, j1
+            if tag == "replace" and (i2 - i1) == (j2 - j1) and \
+                    all(exp[i1 + k].kind == osig[j1 + k].kind for k in range(i2 - i1)):
+                # same kinds in a row: substitutions, judged one by one
+                while i < i2 and j < j2:
+                    e, o = exp[i], osig[j]
+                    m = self.match(e, o)
+                    if m != NONE:
+                        self.pair(e, o, which, None, m)
+                        last = (i, j)
+                    else:
+                        self.report_mismatch(e, o, which)
+                    i += 1
+                    j += 1
+            if i < i2:
+                runs = self.report_dropped_runs(exp[i:i2], osig[j] if j < j2 else None, which)
+                if j < j2 and any(r[0].ctx is not None and r[0].ctx.special == "import" for r in runs):
+                    continue   # what stands there instead is the (wrong) rewrite of the same @import
+            if j < j2:
+                self.report_extra(osig[j:j2], exp[i2] if i2 < hi_i else None, which, enclosing)
         return ok
 
     def pair(self, e, o, which, ws_before, m):
@@ -873,16 +1033,16 @@ class Analysis:
                         cls = "calc-ws-lost-in-nested-fn:" + inner[3:]
                     else:
                         cls = "calc-ws-lost-in-nested-" + inner
-                    self.add(self.prop_of(e), cls,
+                    self.add("C08", cls,
                              "the space next to a + or - inside calc() is gone (the operator is no longer an operator)", e, o)
                 else:
-                    self.add(self.prop_of(e), "ws-lost" + (cx.where() if cx and cx.where() else "-in-selector"),
+                    self.add("C08", "ws-lost" + (cx.where() if cx and cx.where() else "-in-selector"),
                              "descendant combinator (whitespace between two compound selectors) is gone", e, o)
             elif e.gap == "forbid" and ws_before:
                 if e.urange is not None:
                     pass   # judged per run in check_uranges
                 else:
-                    self.add(self.prop_of(e), "ws-inserted-in-selector" + (cx.where() if cx else ""),
+                    self.add("C08", "ws-inserted-in-selector" + (cx.where() if cx else ""),
                              "whitespace (a descendant combinator) appears inside a compound selector", e, o)
         k = e.kind
         if k == "ident" and m == SOFT:
@@ -926,12 +1086,22 @@ class Analysis:
         if cx is not None and cx.special == "import":
             info = next((x for x in self._rw.imports if x["at"].pos == cx.rule_at), {})
             form = info.get("form")
-            cls = "import-url-dropped" if form in ("url", "url-quoted") else "import-placeholder-missing"
-            if any(getattr(x, "_reported", False) for x in es):
-                return
-            for x in _walk_e(es):
-                x._reported = True if hasattr(x, "_reported") else None
-            self.add("C18", cls, "the @import rule left no placeholder in the output (form: %s)" % form, e, o)
+            # AMBIGUITY: when several imports name the same path and fewer placeholders appear,
+            # any of them may be called the missing one; a url() form is named if there is one.
+            same = [x for x in self._rw.imports if x.get("path") == info.get("path") and x.get("top") == info.get("top")]
+            alt = next((x for x in same if x.get("form") in ("url", "url-quoted")), None)
+            if form not in ("url", "url-quoted") and alt is not None and es[0].role == "import-comment":
+                form = alt["form"]
+                self.add("C18", "import-url-dropped", "the @import rule left no placeholder in the output (form: %s)" % form,
+                         e, o, at=list(alt["at"].pos))
+            elif form in ("url", "url-quoted"):
+                self.add("C18", "import-url-dropped", "the @import rule left no placeholder in the output (form: %s)" % form, e, o)
+            elif info.get("layer") == "keyword" and e.kind == "at" and e.val == "layer" and o is not None \
+                    and o.kind == "at" and o.val == "media":
+                self.add("C18", "import-layer-keyword-as-media",
+                         "`@import … layer` (anonymous layer) is wrapped in `@media layer …` instead of `@layer`", e, o)
+            else:
+                self.add("C18", "import-rewrite-differs", "the placeholder of the @import rule (or a wrapper of it) is missing or different: %s" % names, e, o)
             return
         if e.role == "sign":
             self.add("C09", "class-sign-missing" + cx.where(),
@@ -946,6 +1116,30 @@ class Analysis:
         o = os_[0]
         names = " ".join(x.short() for x in os_[:6])
         ref = e if e is not None else enclosing
+        if self.o.convert_host and which == "normal":
+            # `:host` rules that were left where they stood
+            rest = []
+            for kind, pre, term in _rules_of(os_):
+                sig = [t for t in pre if t.kind != "comment"]
+                if kind == "q" and len(sig) >= 2 and sig[0].kind == "colon" and sig[1].kind in ("ident", "fn") and sig[1].val == "host":
+                    pure = len(sig) == 2 and sig[1].kind == "ident"
+                    chain = _out_chain(sig[0])
+                    self.add("C17", ("host-rule" if pure else "host-combination") + "-left-in-normal-output"
+                             + (("-in-at-rule:" + ">".join(chain)) if chain else ""),
+                             "a `:host` rule is still in the normal output although host conversion is on", ref, sig[0])
+                else:
+                    rest += pre + ([term] if term is not None else [])
+            if not rest:
+                return
+            os_ = rest
+            o = os_[0]
+            names = " ".join(x.short() for x in os_[:6])
+        if o.kind == "comment" and self.o.sign is not None and o.val == self.o.sign:
+            self.add("C09", "class-sign-at-non-class-position" + (self.ident_where(ref) if ref is not None else ""),
+                     "the prefix-sign comment marks a position that is not a class selector", ref, o)
+            if len(os_) > 1:
+                self.report_extra(os_[1:], e, which, enclosing)
+            return
         if o.kind == "comment":
             self.add("C08", "comment-kept", "a comment survives in the %s output: %r" % (which, o.val), ref, o)
             if len(os_) > 1:
@@ -956,8 +1150,16 @@ class Analysis:
 
     def report_mismatch(self, e, o, which):
         cx = e.ctx
+        if e.role == "import-comment" and o.kind == "comment":
+            self.check_import_comment(e, o)
+            return
         if e.kind in NUMERIC and o.kind in NUMERIC:
             self.add("C10", "number-kind-or-unit-changed", "numeric token changed kind or unit", e, o)
+            return
+        if e.kind == "at" and o.kind == "at" and e.role == "synth" and cx is not None and cx.special == "import" \
+                and e.val == "layer" and o.val == "media":
+            self.add("C18", "import-layer-keyword-as-media",
+                     "`@import … layer` (anonymous layer) is wrapped in `@media layer` instead of `@layer`", e, o)
             return
         prop = "C17" if which == "low" else self.prop_of(e)
         self.add(prop, "token-changed" + self.generic_where(e), "output token differs from the expected rewrite", e, o)
@@ -1072,15 +1274,49 @@ class Analysis:
             self.add("C18", "import-path-not-encoded", "the path is written raw in the comment: %r" % enc, e, o)
 
 
+def _chunks(items, also=lambda x: False):
+    """index ranges of the chunks of a token list; a chunk ends with `;` or a `{}` block (or an
+    @import placeholder comment)"""
+    res = []
+    start = 0
+    for k, x in enumerate(items):
+        if x.kind in ("semi", "curly") or also(x):
+            res.append((start, k + 1))
+            start = k + 1
+    if start < len(items):
+        res.append((start, len(items)))
+    return res
+
+
+def _out_chain(t):
+    """names of the at-rules whose blocks enclose output token `t`, outermost first"""
+    chain = []
+    b = t.parent
+    while b is not None:
+        sibs = b.parent.children if b.parent is not None else None
+        if b.kind == "curly" and sibs is not None or b.kind == "curly":
+            sibs = b.parent.children if b.parent is not None else _TOP.get("top", [])
+            i = b.index - 1
+            name = None
+            while i >= 0 and sibs[i].kind not in ("semi", "curly"):
+                if sibs[i].kind == "at":
+                    name = _chain_name(sibs[i].val)
+                i -= 1
+            if name:
+                chain.append(name)
+        b = b.parent
+    return list(reversed(chain))
+
+
+_TOP = {}
+
+
 def _rules_of(toks):
     """split an OUTPUT token list into rules: [(kind 'at'|'q', prelude toks, block|None|semi)]"""
     res = []
     i, n = 0, len(toks)
     while i < n:
         t = toks[i]
-        if t.kind in ("ws", "comment") and False:
-            i += 1
-            continue
         if t.kind == "ws":
             i += 1
             continue
@@ -1130,6 +1366,7 @@ def analyze(opts, res):
     if rw.unspecified:
         # an @import that is not `<url-or-string> …` with an import sign: the statement says nothing
         return an
+    _TOP["top"] = tn
     an.cmp_level(exp_n, tn, "normal")
     # low-priority output: list of (wrapper chain, rule)
     flat = []
@@ -1140,35 +1377,63 @@ def analyze(opts, res):
             an.add("C17", "low-output-nonempty-with-conversion-off", "host conversion is off but the low-priority output is not empty",
                    None, tl[0], at=[0, 0])
     else:
-        n = min(len(exp_l), len(flat))
-        for k in range(n):
-            wrap, rule, pos = exp_l[k]
-            chain, pre, term = flat[k]
-            if len(chain) != len(wrap):
-                an.add("C17", "host-wrapper-chain-differs", "the :host rule is wrapped in %d at-rules, expected %d" % (len(chain), len(wrap)),
-                       rule[0], None, at=list(pos) if pos else None)
-            else:
-                for w, (cpre, cterm) in zip(wrap, chain):
-                    before = len(an.problems)
-                    an.cmp_level(w, cpre, "low")
-                    for p in an.problems[before:]:
-                        p["prop"] = "C17"
-                        p["classification"] = "host-wrapper-differs:" + p["classification"]
-                    # wrappers are replayed raw: they are exempt from the source-map demands
+        def first_key(kids, keyf, is_ws):
+            f = next((c for c in kids if not is_ws(c)), None)
+            return keyf(f, True) if f is not None else None
+
+        ekeys = []
+        for wrap, rule, pos in exp_l:
+            blk = rule[-1]
+            ekeys.append((tuple(w[0].val.lower() for w in wrap), first_key(blk.children or [], an.ekey, lambda c: False)))
+        okeys = []
+        for chain, pre, term in flat:
+            names = tuple(cpre[0].val.lower() for cpre, _ in chain)
+            okeys.append((names, first_key(term.children if term is not None and term.children else [], an.okey,
+                                           lambda c: c.kind == "ws")))
+        matched_e, matched_o = set(), set()
+        for tag, i1, i2, j1, j2 in difflib.SequenceMatcher(None, ekeys, okeys, autojunk=False).get_opcodes():
+            if tag == "replace" and i2 - i1 == j2 - j1:
+                tag = "equal"    # same count of rules in a row: compare them one to one
+            if tag != "equal":
+                continue
+            for k, kk in zip(range(i1, i2), range(j1, j2)):
+                matched_e.add(k)
+                matched_o.add(kk)
+                wrap, rule, pos = exp_l[k]
+                chain, pre, term = flat[kk]
+                if len(chain) != len(wrap):
+                    an.add("C17", "host-wrapper-chain-differs", "the :host rule is wrapped in %d at-rules, expected %d" % (len(chain), len(wrap)),
+                           rule[0], None, at=list(pos) if pos else None)
+                else:
+                    for w, (cpre, cterm) in zip(wrap, chain):
+                        # the same prelude is judged in the normal output; here only its shape counts
+                        before = len(an.problems)
+                        an.cmp_level(w, cpre, "low")
+                        new = an.problems[before:]
+                        del an.problems[before:]
+                        for p in new:
+                            if p["classification"].startswith("token-"):
+                                p["prop"] = "C17"
+                                p["classification"] = "host-wrapper-differs:" + p["classification"]
+                                an.problems.append(p)
+                # wrappers are replayed raw: they are exempt from the source-map demands
+                for cpre, cterm in chain:
                     for t in cpre:
                         for x in _walk_t([t]):
                             an.low_wrapper_tokens.add(id(x))
                     an.low_wrapper_tokens.add(id(cterm))
-            # pairs recorded for wrapper tokens must not be used by C19
-            an.pairs["low"] = [(e, t) for (e, t) in an.pairs["low"] if id(t) not in an.low_wrapper_tokens]
-            an.closer_pairs["low"] = [(e, t) for (e, t) in an.closer_pairs["low"] if id(t) not in an.low_wrapper_tokens]
-            an.cmp_level(rule, pre + ([term] if term is not None else []), "low")
-        if len(flat) < len(exp_l):
-            for wrap, rule, pos in exp_l[len(flat):]:
-                an.add("C17", "host-rule-missing-from-low-output", "a `:host {}` rule has no counterpart in the low-priority output",
+                an.pairs["low"] = [(e, t) for (e, t) in an.pairs["low"] if id(t) not in an.low_wrapper_tokens]
+                an.closer_pairs["low"] = [(e, t) for (e, t) in an.closer_pairs["low"] if id(t) not in an.low_wrapper_tokens]
+                an.cmp_level(rule, pre + ([term] if term is not None else []), "low")
+        for k, (wrap, rule, pos) in enumerate(exp_l):
+            if k not in matched_e:
+                names = [_chain_name(w[0].val) for w in wrap]
+                an.add("C17", "host-rule-missing-from-low-output" + (("-in-at-rule:" + ">".join(names)) if names else ""),
+                       "a `:host {}` rule has no counterpart in the low-priority output",
                        rule[0], None, at=list(pos) if pos else None)
-        elif len(flat) > len(exp_l):
-            for chain, pre, term in flat[len(exp_l):]:
+        for kk, (chain, pre, term) in enumerate(flat):
+            if kk not in matched_o:
+                an.aligned_fully = False
                 t0 = (pre or [term])[0]
                 an.add("C17", "low-output-extra-rule", "the low-priority output holds a rule no `:host {}` rule accounts for", None, t0, at=[0, 0])
     an.check_uranges_done = False
@@ -1281,45 +1546,30 @@ def check_c17(opts, res):
     an = analyze(opts, res)
     if not an.ok or an.unspecified:
         return []
-    ps = _of(an, "C17")
+    ps = list(_of(an, "C17"))
     o = an.o
     if not o.convert_host:
         return ps
-    # `:host` rules that were left in place (re-tokenised output still has them)
-    out_hosts = _find_host_rules(an.tn)
-    missed = [h for h in _all_host_rules(an.tin) if True]
     n_illegal = sum(1 for h in an._rw.host_rules if not h["pure"] and h["block"] is not None)
     warns = [w for w in res.get("warnings", []) if _is_kind(w, HOST_WARNING)]
     if len(warns) < n_illegal:
-        h = next(h for h in an._rw.host_rules if not h["pure"])
-        ps.append(dict(prop="C17", classification="host-combination-warning-missing",
+        ill = [h for h in an._rw.host_rules if not h["pure"] and h["block"] is not None]
+        h = next((h for h in ill if h["chain"]), ill[0])
+        ps.append(dict(prop="C17", classification="host-combination-warning-missing"
+                       + (("-in-at-rule:" + ">".join(h["chain"])) if h["chain"] else ""),
                        what="%d `:host` combinations were dropped but only %d warnings were given" % (n_illegal, len(warns)),
                        at=list(h["at"].pos)))
     elif len(warns) > n_illegal:
         ps.append(dict(prop="C17", classification="host-combination-warning-spurious",
                        what="%d host-combination warnings for %d such rules" % (len(warns), n_illegal), at=None))
-    # refine the class of generic C17 problems with the at-rule chain of the rule concerned
-    for p in ps:
-        if p["classification"].startswith(("token-added", "host-rule-missing")) and p.get("at"):
-            h = next((h for h in an._rw.host_rules if list(h["at"].pos) == p["at"]), None)
-            if h is not None and h["chain"]:
-                p["classification"] += "-in-at-rule:" + ">".join(h["chain"])
     return ps
-
-
-def _find_host_rules(toks):
-    return []
-
-
-def _all_host_rules(toks):
-    return []
 
 
 def check_c18(opts, res):
     an = analyze(opts, res)
     if not an.ok or an.unspecified:
         return []
-    ps = _of(an, "C18")
+    ps = list(_of(an, "C18"))
     o = an.o
     if o.import_sign is None:
         return ps
@@ -1455,6 +1705,7 @@ def _check_src(an, add, which, e, t, ens, src_text, closer, cin):
     """one aligned output token (or the closer of an aligned block) against its map entries"""
     allowed = []
     span = None
+    spans = []
     if closer:
         if e.close_src is not None:
             c = cin.get(e.close_src.pos)
@@ -1468,11 +1719,16 @@ def _check_src(an, add, which, e, t, ens, src_text, closer, cin):
     else:
         if e.role in ("synth", "import-comment", "sign") and e.span is not None:
             span = e.span
+            if e.role == "import-comment":
+                # imports naming the same path are interchangeable
+                spans = [x["span"] for x in an._rw.imports if x.get("path") == e.val[1] and x.get("span")]
         elif e.src is not None:
             allowed.append(e.src.pos)
     en = ens[-1] if closer else ens[0]
     sp = (en[2], en[3])
-    ok = sp in allowed or (span is not None and _pos_le(span[0], sp) and _pos_le(sp, span[1]))
+    if span is not None:
+        spans.append(span)
+    ok = sp in allowed or any(_pos_le(a, sp) and _pos_le(sp, b) for a, b in spans)
     if not ok:
         exp = allowed[0] if allowed else span[0]
         before = any(sp in _comment_before(an, a) for a in allowed)
@@ -1487,7 +1743,7 @@ def _check_src(an, add, which, e, t, ens, src_text, closer, cin):
         return
     # names of rewritten tokens
     name = en[4]
-    if e.role == "class" and an.o.prefix is not None:
+    if e.role == "class" and an.o.prefix is not None and t.val == e.val:
         if name is None:
             add("map-name-missing", "prefixed class %s has no name in the %s map" % (t.short(), which), output=which, entry=en, at=list(e.src.pos))
         else:
